@@ -81,5 +81,45 @@ pub fn xing_reject_resolve_twice(s: &mut Src) -> R {
     Ok(())
 }
 
-crate::harness_table!(XING: xing_pass, xing_arcs, xing_resolve, xing_mirror);
+// ------------------------------------------------------------------ Link: resolution bookkeeping
+// (witness search / replay for the Verus unit `link`; Vec-based: native only)
+pub fn xing_link_resolve(s: &mut Src) -> R {
+    use yui_link::{Link, State};
+    let n = s.small(0, 5) as usize;
+    let mut data = vec![]; let mut bits = vec![];
+    for k in 0..5 { let t = any_type(s); let e = [s.small(0, 9) as usize, s.small(0, 9) as usize, s.small(0, 9) as usize, s.small(0, 9) as usize]; let b = s.bool(); if k < n { data.push(Crossing::new(t, e)); bits.push(b); } }
+    reach!();
+    let l = Link::new(data.clone());
+    let unres: Vec<usize> = (0..n).filter(|&j| !data[j].is_resolved()).collect();
+    ob!(l.crossing_num() == unres.len(), "Link::crossing_num-counts-unresolved");
+    for (i, &j) in unres.iter().enumerate() { ob!(l.crossing_at(i) == &data[j], "Link::crossing_at-is-ith-unresolved"); }
+    let m = unres.len();
+    let st = State::from_iter(bits.iter().take(m).map(|&b| if b { Bit::Bit1 } else { Bit::Bit0 }));
+    let r = l.resolved_by(&st);
+    let mut want = data.clone();
+    for (i, &j) in unres.iter().enumerate() { want[j] = data[j].resolved(if bits[i] { Bit::Bit1 } else { Bit::Bit0 }); }
+    ob!(r.data() == &want, "Link::resolved_by::ith-actual-crossing-gets-ith-bit");
+    // traversal on known diagrams (pass_edge through traverse_edges): number of components and writhe
+    let known: [(&[[usize; 4]], usize, i32); 6] = [
+        (&[[1, 4, 2, 5], [3, 6, 4, 1], [5, 2, 6, 3]], 1, -3),          // trefoil
+        (&[[4, 2, 5, 1], [8, 6, 1, 5], [6, 3, 7, 4], [2, 7, 3, 8]], 1, 0), // figure-8
+        (&[[4, 1, 3, 2], [2, 3, 1, 4]], 2, -2),                          // Hopf link
+        (&[[0, 0, 1, 1]], 1, 1),                                         // kinked unknot: the strand re-enters the same crossing
+        (&[[0, 1, 1, 0]], 1, -1),
+        (&[[0, 0, 1, 1], [2, 2, 3, 3]], 2, 2),
+    ];
+    let (pd, nc, w) = known[s.small(0, 5) as usize];
+    let k = Link::from_pd_code(pd.iter().cloned());
+    ob!(k.components().len() == nc, "Link::components-count-on-known-diagrams");
+    ob!(k.writhe() == w, "Link::writhe-on-known-diagrams");
+    if m > 0 {
+        let i = s.small(0, (m - 1) as i64) as usize; let b = if s.bool() { Bit::Bit1 } else { Bit::Bit0 };
+        let r1 = l.resolved_at(i, b);
+        let mut want = data.clone(); want[unres[i]] = data[unres[i]].resolved(b);
+        ob!(r1.data() == &want, "Link::resolved_at");
+    }
+    Ok(())
+}
+
+crate::harness_table!(XING: xing_pass, xing_arcs, xing_resolve, xing_mirror, xing_link_resolve);
 crate::harness_table_should_panic!(XING_REJECT: xing_reject_resolve_twice);
